@@ -244,7 +244,10 @@ fn main() {
         let prot = if f["exec"].as_bool().unwrap_or(false) { libc::PROT_READ | libc::PROT_EXEC } else { libc::PROT_READ };
         match std::fs::File::open(p) {
             Ok(fh) => {
-                let a = unsafe { libc::mmap(std::ptr::null_mut(), len, prot, libc::MAP_PRIVATE, fh.as_raw_fd(), off as i64) };
+                // "fixed": map at this address (an image linked at a fixed address, i.e. not position independent)
+                let fixed = f["fixed"].as_u64().unwrap_or(0) as usize;
+                let flags = if fixed != 0 { libc::MAP_PRIVATE | libc::MAP_FIXED_NOREPLACE } else { libc::MAP_PRIVATE };
+                let a = unsafe { libc::mmap(fixed as *mut libc::c_void, len, prot, flags, fh.as_raw_fd(), off as i64) };
                 if a == libc::MAP_FAILED {
                     fmaps.push(json!({"path": p, "error": "mmap"}));
                 } else {
